@@ -67,7 +67,14 @@ func vpC03WAF(limit int) *corazawaf.WAF {
 
 // VpC03Query: pairs -> independent percent-encoder -> query string -> ExtractGetArguments:
 // ARGS_GET, ARGS and ARGS_NAMES hold exactly the pairs, byte-exact, decoded once.
-func VpC03Query() {
+func VpC03Query() { vpC03Query() }
+
+// VpC03QueryDeep / VpC03BodyDeep: the same checks with a single pair and longer names and values
+// (thorough tier only).
+func VpC03QueryDeep() { vpC03Query() }
+func VpC03BodyDeep()  { vpC03Body() }
+
+func vpC03Query() {
 	pairs, qs := vpC03Pairs()
 	waf := vpC03WAF(0)
 	tx := waf.NewTransaction()
@@ -83,7 +90,9 @@ func VpC03Query() {
 
 // VpC03Body: the same pairs as a urlencoded body: ARGS_POST, ARGS hold exactly the pairs and
 // REQUEST_BODY the raw bytes.
-func VpC03Body() {
+func VpC03Body() { vpC03Body() }
+
+func vpC03Body() {
 	pairs, body := vpC03Pairs()
 	waf := vpC03WAF(0)
 	tx := waf.NewTransaction()
